@@ -895,6 +895,27 @@ class OmniParser(PVLParser):
         self.errors.append(lc)
         return EmptyValueAtLine(lc)
 
+    def _quoted_before(self, pos: int) -> bool:
+        """Returns True if the text before *pos*, ignoring white space
+        and comments, ends with a quote character, i.e. the preceding
+        value was written as a Quoted String, which can never be a
+        Parameter Name.
+        """
+        before = self.doc[:pos]
+        ws = "".join(self.grammar.whitespace)
+        while True:
+            before = before.rstrip(ws)
+            for c_begin, c_end in self.grammar.comments:
+                if (
+                    c_end not in ws
+                    and before.endswith(c_end)
+                    and c_begin in before[: -len(c_end)]
+                ):
+                    before = before[: before.rfind(c_begin, 0, -len(c_end))]
+                    break
+            else:
+                return before.endswith(tuple(self.grammar.quotes))
+
     def parse(self, s: str):
         """Extends the parent function.
 
@@ -931,7 +952,11 @@ class OmniParser(PVLParser):
                 last_token = Token(
                     last_v, grammar=self.grammar, decoder=self.decoder
                 )
-                if isinstance(last_v, str) and last_token.is_parameter_name():
+                if (
+                    isinstance(last_v, str)
+                    and last_token.is_parameter_name()
+                    and not self._quoted_before(t.pos)
+                ):
                     # Fix the previous entry
                     module.pop()
                     module.append(last_k, self._empty_value(t.pos))
